@@ -1,7 +1,7 @@
 SPECIFICATION Spec
 CONSTANTS
   Thorough = FALSE
-  Den3 = 16
+  Den3 = 24
 INVARIANTS
   TokInv
   AstInv
